@@ -3,6 +3,7 @@ package parser
 import (
 	"bytes"
 
+	"github.com/cedar-policy/cedar-go/internal/extensions"
 	"github.com/cedar-policy/cedar-go/types"
 	"github.com/cedar-policy/cedar-go/x/exp/ast"
 )
@@ -143,6 +144,17 @@ type NodeTypeExtensionCall struct {
 	ast.NodeTypeExtensionCall
 	accessPrecedenceNode
 }
+
+// A function-style call such as ip("..") is a primary in the grammar; only method-style calls
+// (x.isIpv4()) are member accesses. Rendering both alike makes a constructor call print with
+// parentheses where the equal extension value prints without, so re-rendering was not stable.
+func (n NodeTypeExtensionCall) precedenceLevel() nodePrecedenceLevel {
+	if info, ok := extensions.ExtMap[n.Name]; ok && !info.IsMethod {
+		return primaryPrecedence
+	}
+	return accessPrecedence
+}
+
 type NodeTypeContains struct {
 	ast.NodeTypeContains
 	accessPrecedenceNode
